@@ -16,6 +16,7 @@ import (
 	"net/http/httputil"
 	"net/url"
 	"os"
+	"os/exec"
 	"sort"
 	"strings"
 	"sync"
@@ -25,6 +26,7 @@ import (
 	"github.com/0xReLogic/Helios/internal/loadbalancer"
 	"github.com/0xReLogic/Helios/internal/logging"
 	"github.com/0xReLogic/Helios/internal/plugins"
+	"gopkg.in/yaml.v3"
 )
 
 func digest(b []byte) string {
@@ -77,7 +79,64 @@ var (
 
 // startHelios builds the proxy exactly as cmd/helios does (LoadBalancer, plugin chain, request
 // context middleware, http.Server with the configured timeouts) on a loopback listener
+var (
+	procMu sync.Mutex
+	procs  []*exec.Cmd
+)
+
+// startHeliosProcess runs the real cmd/helios binary (PROXYSIM_BIN) with the configuration rendered to YAML: its own
+// handler composition, server construction and timeouts, nothing replicated
+func startHeliosProcess(cfg *config.Config) (*helios, error) {
+	ln, err := net.Listen("tcp", "127.0.0.1:0")
+	if err != nil {
+		return nil, err
+	}
+	port := ln.Addr().(*net.TCPAddr).Port
+	ln.Close()
+	c2 := *cfg
+	c2.Server.Port = port
+	y, err := yaml.Marshal(&c2)
+	if err != nil {
+		return nil, err
+	}
+	f, err := os.CreateTemp("", "proxysim-*.yaml")
+	if err != nil {
+		return nil, err
+	}
+	f.Write(y)
+	f.Close()
+	cmd := exec.Command(os.Getenv("PROXYSIM_BIN"), "-config", f.Name())
+	if err := cmd.Start(); err != nil {
+		return nil, err
+	}
+	procMu.Lock()
+	procs = append(procs, cmd)
+	procMu.Unlock()
+	addr := fmt.Sprintf("127.0.0.1:%d", port)
+	for i := 0; i < 200; i++ {
+		if c, err := net.DialTimeout("tcp", addr, 200*time.Millisecond); err == nil {
+			c.Close()
+			os.Remove(f.Name())
+			return &helios{addr: addr, cfg: cfg}, nil
+		}
+		time.Sleep(25 * time.Millisecond)
+	}
+	return nil, fmt.Errorf("helios process did not start listening on %s", addr)
+}
+
+func killProcesses() {
+	procMu.Lock()
+	defer procMu.Unlock()
+	for _, c := range procs {
+		c.Process.Kill()
+		c.Wait()
+	}
+}
+
 func startHelios(cfg *config.Config) (*helios, error) {
+	if os.Getenv("PROXYSIM_BIN") != "" {
+		return startHeliosProcess(cfg)
+	}
 	lb, err := loadbalancer.NewLoadBalancer(cfg)
 	if err != nil {
 		return nil, err
